@@ -230,13 +230,19 @@ class Ctx:
         starts = [i for i, ln in enumerate(lines) if ln.startswith('{"ev":"Reset"')]
         if not starts or starts[0] != 0:
             starts = [0] + starts
-        parts = max(1, min(parts, len(starts)))
-        per = (len(lines) + parts - 1) // parts
-        cuts, nxt = [0], per
-        for st in starts[1:]:
-            if st >= nxt:
-                cuts.append(st)
-                nxt = st + per
+        # pieces: cut at Reset lines, at most `parts` run at a time; a piece is kept small (TLC holds its whole
+        # piece in memory as TLA+ values, roughly 50 times the size of the JSON text)
+        workers = max(1, min(parts, len(starts)))
+        sizes = [len(ln) for ln in lines]
+        total = sum(sizes)
+        per_bytes = min(max(total // workers + 1, 1), 6 << 20)
+        cuts, acc = [0], 0
+        bounds = set(starts)
+        for i, sz in enumerate(sizes):
+            if i in bounds and acc >= per_bytes and i != cuts[-1]:
+                cuts.append(i)
+                acc = 0
+            acc += sz
         cuts.append(len(lines))
         jobs = []
         for k in range(len(cuts) - 1):
@@ -250,7 +256,7 @@ class Ctx:
             total_mb = int(re.search(r"MemTotal:\s+(\d+)", open("/proc/meminfo").read()).group(1)) // 1024
         except Exception:
             total_mb = 16384
-        heap = "%dm" % max(1024, total_mb // 2 // max(1, len(jobs)))
+        heap = "%dm" % max(1024, total_mb // 2 // max(1, workers))
 
         def one(job):
             k, pf, off = job
@@ -259,7 +265,7 @@ class Ctx:
                 if isinstance(d.get("l"), int):
                     d["l"] += off
             return r
-        with ThreadPoolExecutor(max_workers=len(jobs)) as ex:
+        with ThreadPoolExecutor(max_workers=workers) as ex:
             rs = list(ex.map(one, jobs))
         devs = [d for r in rs for d in r["devs"]]
         for _, pf, _ in jobs:
